@@ -24,6 +24,30 @@ CHECKS = {
             "SSA symbolic execution + SMT regular-language (RegLan) queries"),
 }
 
+TECH = "SSA symbolic execution + SMT (bit-vectors), schedule exploration, native replay"
+CHECKS.update({
+    "C02": (A, MC, "the real printer (jsontodsl.go) executed on every rewrite tree up to the node/depth bound and on symbolic names: err == nil iff expressible (independent predicate), text equals the canonical rendering of the normalised model written from the property, IsRelationAssignable; model frozen",
+            "parse-back of the produced text is decided on the text, not through the real parser (the listener half is planned with C01); bounded tree size", TECH),
+    "C04": (A, MC, "strategy/edge kernels on symbolic weight maps (presence and values are solver variables) and the whole Build against an independent fixpoint/longest-walk oracle on every model of the stated families under the stated iteration orders",
+            "models outside the families and orders outside the stated policies are outside; operand-grouping defect recorded as known finding", TECH),
+    "C05": (A, MC, "err == nil iff the independent well-foundedness verdict, error wraps a sentinel, on every model of the families under every explored iteration order",
+            "family and order bounds as in evidence; operand-grouping defect recorded as known finding", TECH),
+    "C06": (A, MC, "one verdict and one digest (all weights and wildcard sets) per model across all explored iteration orders of the builder's maps (driver groups paths by input decisions)",
+            "goroutines/concurrent builds are outside (not modelled); orders limited to the stated policies", TECH),
+    "C07": (A, MC, "the real TransformModuleFilesToModel + line/column helpers + GetModuleForObjectTypeRelation on file sets whose names are symbolic (the solver chooses which declarations collide): verdict iff independent conflict predicate, conservation and attribution on success, file/position on conflict",
+            "per-file parse replaced by a stub contract (validated natively on every replayed witness); bounded numbers of files/declarations", TECH),
+    "C08": (A, MC, "panic monitor of the executor on degenerate protobuf models through the printer, arbitrary yaml nodes through TransformModFile, faulty module files through the merge",
+            "only the hand-written code: arbitrary bytes through ANTLR/protojson/yaml.v3 and the complexity bound are outside (not encoded)", TECH),
+    "C10": (A, MC, "the built graph compared node by node and edge by edge (kinds, order, tupleset labels, ordered condition sets) with a spec graph computed independently from the model, model frozen",
+            "families as in evidence", TECH),
+    "C11": (A, MC, "node and edge wildcard lists compared (as sets, no duplicates) with reachability of T:* nodes in the spec graph on every family member and explored order",
+            "families and orders as in evidence", TECH),
+    "C12": (A, MC, "self-composition: two merges of the same symbolic file set with independent map iteration orders give equal models / equal error lists; swapping adjacent files changes neither verdict nor the set of type definitions",
+            "parser stub as C07; bounded file sets", TECH),
+    "C13": (A, MC, "frozen-object monitor: no store into anything reachable from the model/file list handed to the printer, the weighted builder and the merge; no store to package-level variables of the repository",
+            "data races, goroutines and parser-cache history are outside (not applicable to this technique)", TECH),
+})
+
 NOT_APPLICABLE = {
     "C17": "every clause is about gonum multigraph/topo/dot behaviour, which a hand-written SSA encoder cannot reach (reflection-based iterators); stubbing gonum would stub away the property",
 }
